@@ -63,15 +63,16 @@ type Options struct {
 }
 
 type Canon struct {
-	Info    *types.Info
-	Fset    *token.FileSet
-	Opt     Options
-	names   map[types.Object]string
-	subst   map[types.Object]string
-	nAssign map[types.Object]int
-	nlocal  int
-	Notes   []string
-	params  map[types.Object]bool
+	Info     *types.Info
+	Fset     *token.FileSet
+	Opt      Options
+	names    map[types.Object]string
+	subst    map[types.Object]string
+	refSubst map[types.Object]bool // substitution of slice/pointer/map type: an alias, not a snapshot
+	nAssign  map[types.Object]int
+	nlocal   int
+	Notes    []string
+	params   map[types.Object]bool
 	// RangeBind: range key object -> label
 	bind        map[types.Object]string
 	rangeDepth  int
@@ -295,6 +296,9 @@ func (c *Canon) invalidate(base string) {
 		return
 	}
 	for o, v := range c.subst {
+		if c.refSubst[o] && v != base {
+			continue // an alias of the stored-to memory still denotes that memory
+		}
 		if mentions(v, base) && !strings.HasPrefix(v, "old(") {
 			c.subst[o] = "old(" + v + ")"
 		}
@@ -322,9 +326,10 @@ func isWord(b byte) bool {
 	return b == '_' || b == '$' || b == '%' || (b >= '0' && b <= '9') || (b >= 'a' && b <= 'z') || (b >= 'A' && b <= 'Z')
 }
 
+// baseOf: the variable or field path a store target denotes: `$r.track[%i]` -> `$r.track`.
 func baseOf(target string) string {
 	for i := 0; i < len(target); i++ {
-		if !isWord(target[i]) {
+		if !isWord(target[i]) && !(target[i] == '.' && i+1 < len(target) && isWord(target[i+1])) {
 			return target[:i]
 		}
 	}
@@ -342,6 +347,13 @@ func (c *Canon) assign1(lhs ast.Expr, rhsE ast.Expr, rhs string, define bool, po
 		o := c.obj(id)
 		if define && o != nil && c.isLocalVar(o) && c.nAssign[o] == 1 && !c.Opt.NoSubst && rhsE != nil && c.pureExpr(rhsE) {
 			c.subst[o] = rhs
+			if c.refSubst == nil {
+				c.refSubst = map[types.Object]bool{}
+			}
+			switch o.Type().Underlying().(type) {
+			case *types.Slice, *types.Pointer, *types.Map:
+				c.refSubst[o] = true
+			}
 			return nil
 		}
 		// reslicing prelude: param = param[...]
@@ -901,7 +913,12 @@ func (c *Canon) Expr(e ast.Expr) string {
 	case *ast.ParenExpr:
 		return c.Expr(x.X)
 	case *ast.IndexExpr:
-		return c.Expr(x.X) + "[" + c.Expr(x.Index) + "]"
+		base := c.Expr(x.X)
+		// indexing a from-zero reslice addresses the same element of the underlying slice
+		if i := strings.LastIndex(base, "[:"); i > 0 && strings.HasSuffix(base, "]") && balancedBrackets(base[i+1:len(base)-1]) && !strings.Contains(base[i+2:len(base)-1], ":") {
+			base = base[:i]
+		}
+		return base + "[" + c.Expr(x.Index) + "]"
 	case *ast.SliceExpr:
 		s := c.Expr(x.X) + "[" + c.Expr(x.Low) + ":" + c.Expr(x.High)
 		if x.Max != nil {
@@ -1153,4 +1170,20 @@ func Bin(op token.Token, l, r string, stringish bool) string {
 		t = types.Typ[types.String]
 	}
 	return (&Canon{}).binary(op, l, r, t)
+}
+
+func balancedBrackets(s string) bool {
+	d := 0
+	for _, r := range s {
+		switch r {
+		case '[', '(':
+			d++
+		case ']', ')':
+			d--
+			if d < 0 {
+				return false
+			}
+		}
+	}
+	return d == 0
 }
